@@ -40,7 +40,7 @@ CLAIMED = {
              "real signer; every released signature is judged by the Lean predicate, BLS-verified over the model's signing root for its own "
              "domain and required not to verify under attester/proposer-typed domains. C05_kernel_is_source: onSign equals the function "
              "translated on every run from the Go source of OnSign."
-             " gRPC-routed requests come from several loopback source addresses (client socket bound to 127.0.0.2/.3) against admin lists over them: the source is the REMOTE end of the connection.",
+             " gRPC-routed requests come from several loopback source addresses (client socket bound to 127.0.0.2/.3) against admin lists over them: the source is the REMOTE end of the connection. C05_dispatch_is_source: the ruler's action dispatch (which rule answers which action) is translated from the source on every run; each signing rule is reachable through exactly one action.",
         note="Trusted: Lean kernel + 3 standard axioms; correspondence check; domain-type constants come from go-eth2-types and are validated by the engine, not regenerated.",
         ref="DESIGN.md §6 C05"),
     "C06": dict(
